@@ -17,7 +17,7 @@ FILES = [('/w/ch0/2020-01-01T00-00-00/rf@%d.000.h5' % (10 + i), (10 + i) * 1000,
 class FakeOS:
     """os stand-in inside the ringbuffer module: records deletions and checks, when a file is deleted, that it is tracked, is the oldest of
     its channel, and that some configured limit is exceeded at that moment"""
-    def __init__(self, h, limits): self.h = h; self.limits = limits; self.deleted = []; self.bad = []; self.truth = {}
+    def __init__(self, h, limits): self.h = h; self.limits = limits; self.deleted = []; self.bad = []; self.truth = {}; self.files = FILES
     class _P:
         @staticmethod
         def split(p): i = p.rfind('/'); return p[:i], p[i + 1:]
@@ -30,9 +30,9 @@ class FakeOS:
         t = self.truth
         size, count, duration = self.limits
         if path not in t: self.bad.append('deleted a file that does not exist / is not a reported data file'); return
-        grp = [x for x in FILES if x[0] == path][0][2]
-        mine = sorted((x[1], x[0]) for x in FILES if x[2] == grp and x[0] in t)
-        if mine and mine[0][1] != path: self.bad.append('deleted a file that is not the oldest existing one of its channel')
+        grp = [x for x in self.files if x[0] == path][0][2]
+        mine = sorted((x[1], x[0]) for x in self.files if x[2] == grp and x[0] in t)
+        if mine and mine[0][0] != [x for x in self.files if x[0] == path][0][1]: self.bad.append('deleted a file that is not (one of) the oldest existing one(s) of its channel')
         over = False
         if count is not None and len(mine) > count: over = True
         if duration is not None and mine and mine[-1][0] - mine[0][0] > duration: over = True
@@ -100,11 +100,12 @@ def _exceeded_any(h, size, count, duration):
     return False
 
 
-def _apply(h, kind, fidx, sz, fdst=None):
-    if fidx == 0: f = FILES[0]
-    elif fidx == 1: f = FILES[1]
-    elif fidx == 2: f = FILES[2]
-    else: f = FILES[3]
+def _apply(h, kind, fidx, sz, fdst=None, files=None):
+    FILES_ = files or FILES
+    if fidx == 0: f = FILES_[0]
+    elif fidx == 1: f = FILES_[1]
+    elif fidx == 2: f = FILES_[2]
+    else: f = FILES_[3]
     path, key, grp = f
     rec = h.FileRecord(key=key, size=sz, path=path, group=grp)
     truth = RB.os.truth
@@ -389,6 +390,33 @@ def _verify_size(size: int, i0: bool, i1: bool, i2: bool, i3: bool, o0: bool, o1
     post: _
     """
     return _verify_case(size, None, [i0, i1, i2, i3], [o0, o1, o2, o3], s_old, s_new)
+
+
+# files of one channel that share a time key (the same file name in two timestamped subdirectories), an older and a newer one
+TWINS = [('/w/ch0/2020-01-01T00-00-00/rf@10.000.h5', 10000, GROUPS[0]), ('/w/ch0/2020-01-01T01-00-00/rf@10.000.h5', 10000, GROUPS[0]),
+         ('/w/ch0/2020-01-01T00-00-00/rf@9.000.h5', 9000, GROUPS[0]), ('/w/ch0/2020-01-01T01-00-00/rf@12.000.h5', 12000, GROUPS[0])]
+
+
+def _hist_twins(size: int, f1: int, f2: int, k3: int, f3: int, k4: int, f4: int, s1: int, s2: int) -> bool:
+    """
+    pre: 250 <= size <= 400
+    pre: 0 <= f1 <= 2 and 0 <= f2 <= 2 and 0 <= k3 <= 2 and 0 <= f3 <= 2 and 0 <= k4 <= 1 and 0 <= f4 <= 2
+    pre: 1 <= s1 <= 100 and 1 <= s2 <= 100
+    post: _
+    """
+    # size limit, one channel, files two of which have the SAME time key under different paths (plus an older one): two reports (add), any
+    # third notification, a fourth report (add / modify): the books equal the truth after every notification (tracked set, queue entries by
+    # path, total size) and nothing is deleted unless the limit is exceeded
+    h, fos = _mk(size, None, None)
+    fos.files = TWINS
+    for (k, f, s) in ((0, f1, s1), (0, f2, s2), (k3, f3, s1), (k4, f4, s2)):
+        n0 = len(fos.deleted)
+        _apply(h, k, f, s, None, TWINS)
+        if not _state_ok(h, None) or fos.bad: return False
+        if k == 2 and len(fos.deleted) != n0: return False
+        if sorted(h.records.keys()) != sorted(fos.truth.keys()): return False
+        if h.active_size != sum(fos.truth.values()): return False
+    return True
 
 
 def _ring_witness(f1: int, f2: int) -> bool:
